@@ -125,27 +125,36 @@ class MonitorWeights(Target):
     file = 'python/experiment/runtime/output.py'
     qualname = 'StatusMonitor.__init__'
     slice = ('fallbackWeight = 1.0', 'self.stageWeights = weights', True)
+    pure = ('FlowIR.stage_identifier_to_stage_index',)      # on concrete keys (real code, executed natively)
     max_paths = 400000
     float_sensitive = True
-    assumptions = ["number of stages n <= NMAX (BOUNDED in n)", "status_report has one entry per stage (checked just above the slice)"]
+    assumptions = ["number of stages n <= NMAX (BOUNDED in n)", "status_report has one entry per stage (checked just above the slice)",
+                   "insertion order of the report: ascending, descending or rotated (stage 0 last)"]
 
     def setup(self, c):
         n = 1 + c.choice('n', NMAX)
-        report, given = {}, []
+        entries, given = {}, []
         for i in range(n):
             kind = c.choice('entry%d' % i, 3)
             if kind == 0:
                 w = c.real('w%d' % i)
-                report['stage%d' % i] = {'stage-weight': w}
+                entries[i] = {'stage-weight': w}
                 given.append(w)
             elif kind == 1:
-                report['stage%d' % i] = {}
+                entries[i] = {}
                 given.append(None)
             else:
-                report['stage%d' % i] = {'stage-weight': 'abc'}
+                entries[i] = {'stage-weight': 'abc'}
                 given.append(None)
+        # The report is a dictionary keyed by stage index whose INSERTION order is an input: a package may list its stages
+        # in any order, and inject_default_values appends the stages the package does not mention after the given ones.
+        orders = [list(range(n))]
+        if n > 1:
+            orders += [list(reversed(range(n))), list(range(1, n)) + [0]]
+        order = orders[c.choice('insertion_order', len(orders))]
+        report = {i: entries[i] for i in order}
         this = Obj('statusmonitor', commands={('stage%d' % i): None for i in range(n)}, log=NULLLOG)
-        return State(kwargs={'self': this, 'status_report': report}, n=n, given=given, this=this)
+        return State(kwargs={'self': this, 'status_report': report}, n=n, given=given, this=this, order=order)
 
     def ensures(self, c, st, out):
         if out.kind == 'raise':
@@ -199,8 +208,14 @@ class TotalProgress(Target):
             c.ghost['total'] = v
         this = Obj('statusmonitor', stageWeights=weights, statusFile=Obj('statusfile', setTotalProgress=Extern(
             'Status.setTotalProgress', set_total)))
-        return State(kwargs={'self': this, 'active_stages': active, 'stages_finished': finished}, n=n, weights=weights,
-                     active=active, finished=finished)
+        # the names the surrounding code defines before the slice (so that moving a read across the slice boundary is not
+        # mistaken for a failure here; consistency of the two sets is the business of the [snapshot] target)
+        controller = Obj('controller', comp_lock=threading.RLock(),
+                         get_stages_finished=Extern('get_stages_finished', lambda c: list(finished)),
+                         get_stages_in_transit=Extern('get_stages_in_transit', lambda c: [i for i in active]))
+        return State(kwargs={'self': this, 'active_stages': active, 'stages_finished': finished, 'controller': controller,
+                             'stage': Obj('stage', index=-1, name='current'), 'stages_in_transit': [i for i in active]},
+                     n=n, weights=weights, active=active, finished=finished)
 
     def requires(self, c, st):
         ws = st.weights
@@ -215,6 +230,103 @@ class TotalProgress(Target):
         return [('reported', t is not None),
                 ('between-zero-and-one', And(compare('>=', t, 0), compare('<=', t, 1 + TOL))),
                 ('one-when-all-stages-finished', Implies(all_done, close_to_one(t)))]
+
+
+class TotalProgressSnapshot(Target):
+    """The status monitor's view of the controller.  The sets 'stages in transit' and 'stages finished' are read from a
+    controller that OTHER THREADS keep changing (finishedCheck moves a stage from in-transit to finished); the sum is a
+    proper fraction only if both sets come from ONE consistent state.  Rely/guarantee harness: the controller's state may
+    advance (a stage in transit becomes finished) at every call made while controller.comp_lock is NOT held; calls made
+    inside one `with controller.comp_lock:` block see one state.  The slice runs from the snapshot to the reported total."""
+    prop = 'C20'
+    name = 'StatusMonitor.run.CheckStatus[snapshot]'
+    file = 'python/experiment/runtime/output.py'
+    qualname = 'StatusMonitor.run.CheckStatus'
+    slice = ('active_stages = {}', 'self.statusFile.setTotalProgress(stage_status)', True)
+    float_sensitive = True
+    max_paths = 200000
+    trusted = ["comp_lock excludes the controller's writers (finishedCheck adds to comp_done under comp_lock: C01 frame lemma)",
+               "compute_stage_status returns a value in [0,1] (get_stage_status, proved below; status programs trusted)"]
+    assumptions = ["3 stages, the current one is stage 1; every initial placement of the other two (not started / in transit / "
+                   "finished); the environment may finish any stage in transit at any unlocked call (BOUNDED in n)"]
+    N = 3
+    CUR = 1
+
+    def setup(self, c):
+        g = c.ghost
+        n = self.N
+        weights = [c.real('w%d' % i) for i in range(n)]
+        world = {}
+        for i in range(n):
+            if i != self.CUR:
+                world[i] = c.one_of('stage%d.initially' % i, ['transit', 'finished', 'not-started'])
+        g['held'] = 0
+        g['total'] = None
+        g['steps'] = 0
+        progress = {}
+
+        def env_step(c, where):
+            # another thread (finishedCheck) may complete a stage whenever the lock is not held by this thread
+            if g['held']:
+                return
+            for i in sorted(world):
+                if world[i] == 'transit' and c.one_of('%s: stage %d finishes meanwhile' % (where, i), [False, True]):
+                    world[i] = 'finished'
+                    g['steps'] += 1
+
+        def in_transit(c):
+            env_step(c, 'get_stages_in_transit')
+            return [i for i in sorted(world) if world[i] == 'transit']
+
+        def finished(c):
+            env_step(c, 'get_stages_finished')
+            return [i for i in sorted(world) if world[i] == 'finished']
+
+        def compute(c, stage, controller):
+            env_step(c, 'compute_stage_status(%d)' % stage.index)
+            if stage.index not in progress:
+                p = c.real('p%d' % stage.index)
+                c.require(And(compare('>=', p, 0), compare('<=', p, 1)))
+                progress[stage.index] = p
+            return progress[stage.index]
+
+        def acquire(c):
+            g['held'] += 1
+            return None
+
+        def release(c, *a):
+            g['held'] -= 1
+            return False
+        lock = Obj('comp_lock', __enter__=Extern('comp_lock.acquire', acquire), __exit__=Extern('comp_lock.release', release))
+        controller = Obj('controller', comp_lock=lock, get_stages_in_transit=Extern('get_stages_in_transit', in_transit),
+                         get_stages_finished=Extern('get_stages_finished', finished))
+        stages = [Obj('stage%d' % i, index=i, name='stage%d' % i) for i in range(n)]
+
+        def set_total(c, v):
+            g['total'] = v
+        this = Obj('statusmonitor', stageWeights=weights, compute_stage_status=Extern('compute_stage_status', compute),
+                   experiment=Obj('experiment', _stages=stages), log=NULLLOG,
+                   statusFile=Obj('statusfile', setTotalProgress=Extern('Status.setTotalProgress', set_total),
+                                  setExperimentState=Extern('Status.setExperimentState', lambda c, s: None)))
+        return State(kwargs={'self': this, 'controller': controller, 'stage': stages[self.CUR], 'stageState': 'running'},
+                     weights=weights, world=world, progress=progress, initial=dict(world))
+
+    def requires(self, c, st):
+        return And(close_to_one(total(st.weights)), *[compare('>=', w, 0) for w in st.weights])
+
+    def ensures(self, c, st, out):
+        if out.kind == 'raise':
+            return [('no-exception', False)]
+        t = c.ghost['total']
+        cl = [('reported', t is not None),
+              ('between-zero-and-one-whatever-the-other-threads-do', And(compare('>=', t, 0), compare('<=', t, 1 + TOL))),
+              ('lock-released', c.ghost['held'] == 0)]
+        if all(v == 'finished' for v in st.initial.values()) and self.CUR in st.progress:
+            cl.append(('one-when-every-stage-has-completed', Implies(compare('==', st.progress[self.CUR], 1), close_to_one(t))))
+        return cl
+
+    def cross_compare(self, *a):
+        return []
 
 
 class StageStatus(Target):
@@ -387,5 +499,5 @@ class StageSets(Target):
         return []
 
 
-TARGETS = [InjectWeights(), MonitorWeights(), TotalProgress(), StageStatus(), StageSets()]
+TARGETS = [InjectWeights(), MonitorWeights(), TotalProgress(), TotalProgressSnapshot(), StageStatus(), StageSets()]
 LEMMAS = [FallbackArithmetic(), DoubleRoundTrip()]
